@@ -182,6 +182,28 @@ def floats_of(v, acc):
         acc.append(v)
 
 
+def lazy_shared_cell(R):
+    """A formula cell whose evaluation FAILS for the values in force (C1 = B1/A1 with A1 = 0), mentioned twice inside the branch IF does not
+    take / inside IFERROR's guarded argument: it must not be evaluated (IF), or its failure must be caught (IFERROR)."""
+    cells = {'A1': 0, 'B1': 10, 'C1': '=B1/A1', 'D1': '=IF(A1=0,0,C1+C1*2)', 'D2': '=IFERROR(C1*C1,-1)', 'D3': '=IF(A1,C1,7)+IF(A1,C1,8)',
+             'D4': '=IFERROR(IF(A1=0,C1,1)+IF(A1=0,C1,2),"caught")', 'D5': '=IF(A1=0,"zero",IF(C1>1,C1,-C1))'}
+    want0 = [0, -1, 15, 'caught', 'zero']
+    want2 = [15.0, 25.0, 10.0, 3, 5.0]
+    for entry in (None, 'entry'):
+        for r, w in enumerate(want0):
+            R.count(('lazy_shared', entry, r), True)
+            cl = I.build([('S', cells)], I.Cell(0, 3, r) if entry else None)
+            e = I.executor(cl)
+            got = I.outcome(lambda: e.get_cell(I.Cell(0, 3, r)).value)
+            e.set_cells([I.Cell(0, 0, 0, 2)])
+            got2 = I.outcome(lambda: e.get_cell(I.Cell(0, 3, r)).value)
+            if got != ('ok', w) or got2 != ('ok', want2[r]):
+                R.violation('with A1 = 0, C1 = B1/A1 fails; %s evaluates to %r (expected %r); after the override A1 := 2 to %r (expected %r)%s'
+                            % (cells['D%d' % (r + 1)], got, w, got2, want2[r], ' [translated from the entry cell]' if entry else ''),
+                            {'recipe': {'kind': 'lazy_shared'}, 'input_found': True})
+                return
+
+
 def make_case(rc):
     e = rc['e']
     e = tuplify(e)
@@ -253,12 +275,18 @@ def run(R, tier):
     for c in cases[:2] + cases[-3:]:
         R.sample({'formula': c['recipe']['formula']})
     C.correspond(R, HEADER, 'report', cases, 'c13', 'IF/IFS/IFERROR translators, _iferror/_ifs/_find_error_in_list and their embedding in expressions')
+    lazy_shared_cell(R)
     R.assumptions += ['text conditions are outside the decided domain (Python truthiness is used on both sides)',
                       'an Excel error on the spec side matches any failure (exception or error text) on the other side']
 
 
 def replay(R, rp):
     rc = rp.get('recipe') or (rp.get('examples') or [None])[0]
+    if rc is not None and rc.get('kind') == 'lazy_shared':
+        lazy_shared_cell(R)
+        for w, _ in R.violations:
+            print(w)
+        return 1 if R.violations else 0
     if rc is None:
         print('nothing to replay: ' + str(rp.get('broken')))
         return 1
